@@ -188,6 +188,28 @@ def other_problems(B):
     return out
 
 
+def missing_machine_files(B):
+    """files named by cmd_line.txt [properties] (native_file / cross_file) that do not exist"""
+    p = os.path.join(B, 'meson-private', 'cmd_line.txt')
+    if not os.path.exists(p):
+        return []
+    try:
+        import ast
+        from mesonbuild.cmdline import CmdLineFileParser
+        cfg = CmdLineFileParser()
+        cfg.read(p)
+        if 'properties' not in cfg:
+            return []
+        out = []
+        for k in ('native_file', 'cross_file'):
+            for f in ast.literal_eval(cfg['properties'].get(k, '[]')):
+                if not os.path.exists(f):
+                    out.append('%s: %s' % (k, os.path.relpath(f, B) if f.startswith(B) else f))
+        return out
+    except Exception:
+        return []
+
+
 def classify(d, req):
     keys, table = req['keys'], req['values']
     B = d['dir']
@@ -225,6 +247,7 @@ def classify(d, req):
         rep = None
     # files in meson-private / meson-info that no loader above knows (reported, not judged)
     return {'state': ' '.join(out), 'intro_values': rep, 'ninja': ninja_hash(os.path.join(B, 'build.ninja'), B),
+            'missing_machine_files': missing_machine_files(B),
             'problems': (ninja_problems(os.path.join(B, 'build.ninja')) + other_problems(B)) if req.get('wellformed') else []}
 
 
@@ -238,6 +261,9 @@ def oracle(sc):
     fails = []
     for p in sc['points']:
         ident = '%s@%s' % (sc['id'], p['what'])
+        # (0) whatever was killed wherever: every machine file that cmd_line.txt names exists
+        if p.get('pre_missing'):
+            fails.append({'kind': 'recorded-machine-file-missing', 'ident': ident, 'j': p['j'], 'files': p['pre_missing']})
         if p['cls'] != 'ok':
             fails.append({'kind': 'followup-fails', 'ident': ident, 'j': p['j'], 'class': p['cls'], 'detail': p.get('tail', '')})
             continue
@@ -247,6 +273,8 @@ def oracle(sc):
         missing = [c + '=' + toks[c] for c in required if toks[c][0] == 'A']
         if bad or missing:
             fails.append({'kind': 'state-file-unreadable-after-followup', 'ident': ident, 'j': p['j'], 'files': bad + missing})
+        if p.get('post_missing'):
+            fails.append({'kind': 'recorded-machine-file-missing-after-followup', 'ident': ident, 'j': p['j'], 'files': p['post_missing']})
         # (2') what the recovery run wrote is well-formed, and build.ninja is what an uninterrupted run writes
         if p.get('problems'):
             fails.append({'kind': 'state-file-malformed-after-followup', 'ident': ident, 'j': p['j'], 'problems': p['problems']})
